@@ -14,7 +14,7 @@
 (*   {"roots": [[code points of a Shredder-FEN record], ...],              *)
 (*    "depth": n, "setters": 0|1, "sweep": 0|1|2}                          *)
 (***************************************************************************)
-EXTENDS ImplParse, Notation, Json, IOUtils
+EXTENDS ImplParse, ImplSan, Json, IOUtils
 
 Cfg == JsonDeserialize(IOEnv.MCCFG)
 RootPos(i) == AsPos(Denote(Cfg.roots[i], 1).bs)
@@ -87,6 +87,12 @@ NoEp == [pos EXCEPT !.ep = -1]
 SameVsNoEp == pos.ep = -1 \/ ImplStage(NoEp) # "ok" \/
               (/\ SamePositionImpl(bd, BoardOf(NoEp)) = SamePos(pos, NoEp)
                /\ SamePositionImpl(BoardOf(NoEp), bd) = SamePos(NoEp, pos))
+
+\* C20, implementation-shaped: the writer's components equal the canonical ones and the reader inverts them
+SanImplOK == LET lg == Legal(pos) IN
+             \A m \in lg : LET parts == SanParts(pos, lg, m) IN
+                /\ DisplaySanImpl(bd, m) = parts
+                /\ ParseSanImpl(bd, TokensOfParts(parts)) = m
 
 Sample == TLCGet("level") > 1 \/ PrintT(<<"SAMPLE", "root", CanonFen(pos, TRUE), Cardinality(Legal(pos))>>)
 =============================================================================
